@@ -92,6 +92,8 @@ class Program:
             v = np.dtype(t).type(planted(t, 1, 3)[0])
             self.props.setdefault(path, {})[name] = (tm.TYPES[TAG_TCODE[t]][0], v.tobytes())
             return v
+        if kind == 'unsupported':
+            return object()         # not a supported property type: the writer must reject the whole call
         if kind.startswith('wrap:'):
             import nptdms.types as types
             cls = getattr(types, kind[5:])
@@ -154,7 +156,17 @@ def run_program(ctx, sessions, with_index=False):
         w = TdmsWriter(data, version=ses.get('version', 4712), index_file=index if with_index else False)
         with w:
             for seg in ses['segments']:
-                w.write_segment([prog.obj(o) for o in seg])
+                snap = ({k: dict(tag=v['tag'], values=list(v['values'])) for k, v in prog.channels.items()},
+                        {k: dict(v) for k, v in prog.props.items()}, list(prog.order))
+                rejected = any(k == 'unsupported' for o in seg for (_, k) in (o[1] if o[0] == 'root' else o[2] if o[0] == 'group' else o[5]))
+                try:
+                    w.write_segment([prog.obj(o) for o in seg])
+                except TypeError:
+                    if not rejected:
+                        raise
+                    # a call the writer rejects writes nothing and must leave no trace in what is emitted later
+                    prog.channels, prog.props, prog.order = snap
+                    prog.rejected = getattr(prog, 'rejected', 0) + 1
     return data, index, prog
 
 
